@@ -1,0 +1,9 @@
+//go:build verif
+
+package roprometheus
+
+// SetVerifLicenseBypass switches the licence check of the plugin on or off for the verification harness
+// (build tag "verif" only; the real check needs a key signed by the vendor).
+func SetVerifLicenseBypass(on bool) {
+	bypassLicenseCheck = on
+}
